@@ -14,6 +14,7 @@ validated against reality: child processes write real files opened by path ('a' 
 mode) and are killed with os._exit at the k-th line event (sys.monitoring) inside the
 package's and ASE's I/O functions; the surviving bytes are judged the same way against
 an uninterrupted twin run.
+The op-log model runs tell the observers both declared file modes ('a' and 'w').
 """
 from __future__ import annotations
 
